@@ -176,6 +176,10 @@ def mutations(kind, alg, custom, is7797, rng, tier):
         for n, t in more.items():
             for tn, v in tv[:12]:
                 yield f"algspecific:{n}={tn}", {n: copy.deepcopy(v)}, []
+        # parameters that belong to *other* algorithms are unregistered for this one
+        for n, t in {"p2c": INT, "p2s": STR, "epk": JWK, "apu": STR, "apv": STR, "iv": STR, "tag": STR, "skid": STR}.items():
+            if n not in more:
+                yield f"stray:{n}", {n: copy.deepcopy(VALID_VALUE[t]) if n != "epk" else {"kty": "EC", "crv": "P-256", "x": "AA", "y": "AA"}}, []
 
 
 class Cfg:
@@ -323,8 +327,20 @@ def jwe_cases(ctx, rng, cfg: Cfg, alg, enc):
     rkj, skj = g.keys_for(alg, enc, rng.choice(g.ECDH_CURVES))
     jpub, jpriv = j.key(gen.public_jwk(rkj)), j.key(rkj)
     jsp, jss = (j.key(skj), j.key(gen.public_jwk(skj))) if skj else (None, None)
-    reg = make_registry("jwe", cfg, [alg, enc, "DEF"])
     pt = b"c15-plaintext"
+    warmed = rng.random() < 0.5
+    if warmed:
+        # one registry object serving several algorithm families, used for other algorithms before: what it accepts for this algorithm is the same
+        reg = make_registry("jwe", cfg, sorted(set(g.ALGS) | set(g.ENCS) | {"DEF"}))
+        for walg in ("PBES2-HS256+A128KW", "ECDH-ES", "A128GCMKW", "ECDH-1PU", "ECDH-ES+A128KW"):
+            wrk, wsk = g.keys_for(walg, "A128CBC-HS256", "P-256")
+            wh = {"alg": walg, "enc": "A128CBC-HS256", **{n: VALID_VALUE[t] for n, (t, req) in cfg.custom.items() if req}}
+            w = call(j.jwe.encrypt_compact, wh, pt, j.key(gen.public_jwk(wrk)), registry=reg, sender_key=j.key(wsk) if wsk else None)
+            if w.ok:
+                call(j.jwe.decrypt_compact, w.value, j.key(wrk), registry=reg, sender_key=j.key(gen.public_jwk(wsk)) if wsk else None)
+                ctx.count("registry_warmups")
+    else:
+        reg = make_registry("jwe", cfg, [alg, enc, "DEF"])
     base = {"alg": alg, "enc": enc}
     if rng.random() < 0.5:
         base.update(rng.choice([{"kid": "k-1"}, {"typ": "JOSE", "cty": "x"}, {"kid": "k-2", "typ": "JWT"}]))
@@ -341,7 +357,7 @@ def jwe_cases(ctx, rng, cfg: Cfg, alg, enc):
         hdr = apply(base, add, delete)
         mkey = mname.split("=")[0].split(":")[-1]
         for pos in ("protected", "unprotected", "recipient"):
-            d = {"mutation": mname, "pos": pos, "alg": alg, "enc": enc, "mname": mkey}
+            d = {"mutation": mname, "pos": pos, "alg": alg, "enc": enc, "mname": mkey, "registry_used_before_for_other_algorithms": warmed}
             moved = {k: v for k, v in hdr.items() if k in add}
             rest = {k: v for k, v in hdr.items() if k not in moved}
             # ---- produce
@@ -470,7 +486,8 @@ def replay(ctx, case):
     for cfg in configs("jws") + configs("jwe"):
         if cfg.name == case.get("config"):
             if "enc" in case:
-                jwe_cases(ctx, ctx.rng, cfg, case["alg"], case["enc"])
+                for _ in range(6):   # the registry is shared with other algorithms in about half of the runs, mutations are sampled on the quick tier
+                    jwe_cases(ctx, ctx.rng, cfg, case["alg"], case["enc"])
             else:
                 jws_cases(ctx, ctx.rng, cfg, case["alg"])
             return
